@@ -273,6 +273,7 @@ func walk(seed []byte, net int, path []uint32, opt walkOpt) {
 	cases.Add(fmt.Sprintf("Master %s %s %d %s", mo.Coq(), vh.CoqBytes(seed), net, coqRes(k, err)),
 		map[string]interface{}{"op": "NewMaster", "seed": vh.Hex(seed), "net": nets[net].Name, "impl": descKey(k.VerifFields())})
 	observe(c, k, n, vpriv, "master")
+	rep.Sample(map[string]interface{}{"seed": vh.Hex(seed), "net": nets[net].Name, "path": pathStr(path), "master": k.String()}, 4)
 
 	for step, i := range path {
 		c.path = path[:step+1]
@@ -398,8 +399,12 @@ func walk(seed []byte, net int, path []uint32, opt walkOpt) {
 }
 
 // nodeCases writes the single-function cases for one key.
+var nodeCount int
+
 func nodeCases(k *hdkeychain.ExtendedKey, shaOracle bool, what string) {
 	f := k.VerifFields()
+	nodeCount++
+	full := nodeCount%3 == 0 || len(f.Key) != 32
 	o := hdref.NewOracle()
 	o.RecordDSha = shaOracle
 	pub := pubOracle(o, f)
@@ -423,6 +428,11 @@ func nodeCases(k *hdkeychain.ExtendedKey, shaOracle bool, what string) {
 	cases.Add(fmt.Sprintf("Str %s %s %s", o.Coq(), coqKey(f), vh.CoqStr(s)), map[string]interface{}{"op": "String", "node": what, "key": descKey(f), "impl": s})
 	o2 := hdref.NewOracle()
 	pubOracle(o2, f)
+	nk, nerr := k.Neuter()
+	cases.Add(fmt.Sprintf("Neuter %s %s %s", o2.Coq(), coqKey(f), coqRes(nk, nerr)), map[string]interface{}{"op": "Neuter", "node": what, "key": descKey(f)})
+	if !full {
+		return
+	}
 	cases.Add(fmt.Sprintf("PubBytes %s %s %s", o2.Coq(), coqKey(f), vh.CoqBytes(k.VerifPubKeyBytes())), map[string]interface{}{"op": "pubKeyBytes", "node": what, "key": descKey(f)})
 	o3 := hdref.NewOracle()
 	pubOracle(o3, f)
@@ -431,8 +441,6 @@ func nodeCases(k *hdkeychain.ExtendedKey, shaOracle bool, what string) {
 	if err == nil {
 		cases.Add(fmt.Sprintf("Addr %s %s (Ok %s)", o3.Coq(), coqKey(f), vh.CoqBytes(addr.Hash160()[:])), map[string]interface{}{"op": "Address", "node": what, "key": descKey(f)})
 	}
-	nk, nerr := k.Neuter()
-	cases.Add(fmt.Sprintf("Neuter %s %s %s", o2.Coq(), coqKey(f), coqRes(nk, nerr)), map[string]interface{}{"op": "Neuter", "node": what, "key": descKey(f)})
 	sk, err := k.ECPrivKey()
 	if err != nil {
 		cases.Add(fmt.Sprintf("ECPriv %s (Err %d)", coqKey(f), errClass(err)), map[string]interface{}{"op": "ECPrivKey", "node": what})
@@ -765,13 +773,18 @@ func main() {
 				Seed string   `json:"seed"`
 				Net  int      `json:"net_index"`
 				Path []uint32 `json:"path_indices"`
+				Hist []uint32 `json:"children_derived_from_the_same_object_in_order"`
 			} `json:"input"`
 		}
 		b, err := os.ReadFile(cfg.Replay)
 		vh.Must(err)
 		vh.Must(json.Unmarshal(b, &rp))
 		seed, _ := hex.DecodeString(rp.Input.Seed)
-		walk(seed, rp.Input.Net, rp.Input.Path, walkOpt{})
+		if len(rp.Input.Hist) > 0 {
+			siblings(seed, rp.Input.Net, rp.Input.Path, rp.Input.Hist, false)
+		} else {
+			walk(seed, rp.Input.Net, rp.Input.Path, walkOpt{})
+		}
 		finish()
 		return
 	}
@@ -815,7 +828,7 @@ func main() {
 		rep.Histogram["seedlen_>64"]++
 		if err != hdkeychain.ErrInvalidSeedLen {
 			rep.Violate("C04:guard:seedlen", "NewMaster did not refuse a seed outside 16..64 bytes with ErrInvalidSeedLen",
-				map[string]interface{}{"seed_len": l, "seed": vh.Hex(seed), "err": fmt.Sprint(err), "net": nets[l%len(nets)].Name})
+				map[string]interface{}{"seed_len": l, "seed": vh.Hex(seed), "err": fmt.Sprint(err), "net": nets[l%len(nets)].Name, "net_index": l % len(nets)})
 		}
 		if corr && (l%256 == 16 || l%256 == 40 || l%256 == 64 || l == 1200) {
 			cases.Add(fmt.Sprintf("Master no_oracle %s %d %s", vh.CoqBytes(seed), l%len(nets), coqRes(k, err)),
@@ -850,7 +863,7 @@ func main() {
 	r = rng.Fork("paths")
 	np := 40
 	if cfg.Thorough() {
-		np = 400
+		np = 250
 	}
 	if cfg.Search {
 		np = 6000
